@@ -103,4 +103,16 @@ PROPS = {
             "thorough": [dict(test="TestC18Isolation", checks=12000, shards=16, timeout=3000)],
         },
     ),
+    "C05": dict(
+        kind="inpkg", pkg="./core/consensus/qbft", overlay=[("c05", "core/consensus/qbft")], level="exploration", engine="overlay",
+        technique="property-based mutation testing of wire messages (rapid): valid signed messages of every shape, one generated alteration each, oracle = rejected without touching any receive buffer; positive control on the unaltered message",
+        level_text="In-package check of the production receive handler: for generated valid messages (all five types, with justifications and values) every drawn alteration of a signed leaf at either nesting level, "
+                   "re-signed rule violations, altered / missing referenced values, count limits, gated / expired duties, nil parts and arbitrary bytes must be rejected with no buffer or instance created, while the unaltered message is accepted exactly once.",
+        level_note="Runs as an overlay test inside core/consensus/qbft (no file is written to /repo); uses handle, signMsg, hashProto and Consensus fields the package's own tests also use. "
+                   "Base messages are built with signMsg rather than harvested from live runs; the decide-payload clause is covered by C01's cluster harness.",
+        runs={
+            "quick": [dict(test="TestC05Handle", checks=6000, shards=4)],
+            "thorough": [dict(test="TestC05Handle", checks=150000, shards=16, timeout=3000)],
+        },
+    ),
 }
